@@ -9,7 +9,7 @@
    The round trips hold for all lists, all randomness streams; the freshness statements name their hypothesis on the
    randomness explicitly (pairwise different pads; pairwise visibly different draws). *)
 From CJ Require Import Common.Base C15.Model C15.Proofs C15.ModelName C15.ProofsName C15.ModelObf C15.ProofsObf C15.ModelDns C15.ProofsDns
-  C15.ModelPb C15.ProofsPb C15.ModelB32 C15.ProofsB32 C15.ModelSeq C15.ProofsSeq.
+  C15.ModelPb C15.ProofsPb C15.ModelB32 C15.ProofsB32 C15.ModelSeq C15.ProofsSeq C15.ModelStream C15.ProofsStream.
 
 (* the generic lifting: a round trip that holds for one call holds, position by position, for any number of calls *)
 Theorem C15_seq_roundtrip_lifting :
@@ -124,3 +124,65 @@ Theorem C15_seq_draws_give_headers :
   forall r1 r2, draws_differ sbm r1 r2 -> headers_differ sbm r1 r2.
 Proof. exact draws_headers. Qed.
 Print Assumptions C15_seq_draws_give_headers.
+
+(* ---- three of the six laws of crypto_laws discharged from the stream-cipher shape of CTR and GCM ----
+   ctr_of / seal_of / open_of (ModelStream.v): ciphertext = plaintext XOR a keystream that depends on (key, IV, position)
+   only; GCM appends a 16-octet authenticator of the ciphertext, Open recomputes it before decrypting.  The keystream
+   and the authenticator are uninterpreted; the shape itself is compared with crypto/cipher on every run. *)
+Theorem C15_ctr_involution_from_stream :
+  forall (ks : bytes -> bytes -> nat -> byte) k iv m, ctr_of ks k iv (ctr_of ks k iv m) = m.
+Proof. exact ctr_of_involution. Qed.
+Print Assumptions C15_ctr_involution_from_stream.
+
+Theorem C15_gcm_open_seal_from_stream :
+  forall (ks : bytes -> bytes -> nat -> byte) (mac : bytes -> bytes -> bytes -> bytes),
+    (forall k n c, length (mac k n c) = 16%nat) ->
+    forall k n m, open_of ks mac k n (seal_of ks mac k n m) = Some m.
+Proof. exact (fun ks mac H => open_seal (fun _ _ _ => 0) ks mac H). Qed.
+Print Assumptions C15_gcm_open_seal_from_stream.
+
+Theorem C15_crypto_laws_from_streams :
+  forall cks gks mac, (forall k n c, length (mac k n c) = 16%nat) ->
+  forall sbm r2p x pub_of,
+    (forall a pa ra, sbm a = Some (pa, ra) -> length ra = 32%nat /\ nth 31 ra 0 < 64) ->
+    (forall a pa ra, sbm a = Some (pa, ra) -> r2p ra = pa) ->
+    (forall a pa ra k, sbm a = Some (pa, ra) -> x k pa = x a (pub_of k)) ->
+    crypto_laws sbm r2p x (ctr_of cks) (seal_of gks mac) (open_of gks mac) pub_of.
+Proof. exact crypto_laws_of_streams. Qed.
+Print Assumptions C15_crypto_laws_from_streams.
+
+Theorem C15_ctr_obfuscate_reveal_streams :
+  forall cks sbm r2p x sha pub_of,
+    (forall a pa ra, sbm a = Some (pa, ra) -> length ra = 32%nat /\ nth 31 ra 0 < 64) ->
+    (forall a pa ra, sbm a = Some (pa, ra) -> r2p ra = pa) ->
+    (forall a pa ra k, sbm a = Some (pa, ra) -> x k pa = x a (pub_of k)) ->
+    forall r k t c, ctr_obfuscate sbm x sha (ctr_of cks) r t (pub_of k) = Some c -> ctr_reveal r2p x sha (ctr_of cks) c k = Some t.
+Proof.
+  exact (fun cks sbm r2p x sha pub_of H1 H2 H3 =>
+           ctr_roundtrip_streams cks (fun _ _ _ => 0) (fun _ _ _ => repeat 0 16) (fun _ _ _ => eq_refl) sbm r2p x sha pub_of H1 H2 H3).
+Qed.
+Print Assumptions C15_ctr_obfuscate_reveal_streams.
+
+Theorem C15_gcm_obfuscate_reveal_streams :
+  forall gks mac, (forall k n c, length (mac k n c) = 16%nat) ->
+  forall sbm r2p x sha pub_of,
+    (forall a pa ra, sbm a = Some (pa, ra) -> length ra = 32%nat /\ nth 31 ra 0 < 64) ->
+    (forall a pa ra, sbm a = Some (pa, ra) -> r2p ra = pa) ->
+    (forall a pa ra k, sbm a = Some (pa, ra) -> x k pa = x a (pub_of k)) ->
+    forall r k t c, gcm_obfuscate sbm x sha (seal_of gks mac) r t (pub_of k) = Some c -> gcm_reveal r2p x sha (open_of gks mac) c k = Some t.
+Proof. exact (fun gks mac H => gcm_roundtrip_streams (fun _ _ _ => 0) gks mac H). Qed.
+Print Assumptions C15_gcm_obfuscate_reveal_streams.
+
+(* decoder on near-valid bytes: an encoding whose authenticator (the last 16 octets) was altered, everything before it
+   intact, is rejected - from the shape alone, no assumption on the authenticator *)
+Theorem C15_gcm_rejects_damaged_tag :
+  forall gks mac, (forall k n c, length (mac k n c) = 16%nat) ->
+  forall sbm r2p x sha pub_of,
+    (forall a pa ra, sbm a = Some (pa, ra) -> length ra = 32%nat /\ nth 31 ra 0 < 64) ->
+    (forall a pa ra, sbm a = Some (pa, ra) -> r2p ra = pa) ->
+    (forall a pa ra k, sbm a = Some (pa, ra) -> x k pa = x a (pub_of k)) ->
+    forall r k t c c', gcm_obfuscate sbm x sha (seal_of gks mac) r t (pub_of k) = Some c ->
+      length c' = length c -> take (blen c - 16) c' = take (blen c - 16) c -> c' <> c ->
+      gcm_reveal r2p x sha (open_of gks mac) c' k = None.
+Proof. exact (fun gks mac H => gcm_rejects_damaged_tag (fun _ _ _ => 0) gks mac H). Qed.
+Print Assumptions C15_gcm_rejects_damaged_tag.
